@@ -4,9 +4,17 @@ Model: coq/theories/C17/Toposort.v; theorems: coq/theories/C17/Props.v.
 Tie: correspondence of `toposort` (vm_compute) with
 sleap_nn.inference.paf_grouping.toposort_edges and PAFScorer.sorted_edge_inds
 on *all* rooted labelled trees with 2..N nodes under *all* edge listings
-(exhaustive), plus a stream of non-tree digraphs (model fidelity outside the
-property's domain).  Oracle: the property statement evaluated on the
-implementation's own output.
+(exhaustive), plus a stream of non-tree digraphs and a stream of POLYTREES
+(undirected trees with an edge written towards a node that already has a
+parent: model fidelity outside the property's domain; both model and code
+return an incomplete order there, theorem `toposort_polytree_incomplete`).
+Oracle: the property statement evaluated on the implementation's own output.
+The Coq side evaluates `Walk.run_topo` = (toposort es, is_tree es, order_ok es
+<implementation's output>): `is_tree` must agree with the Python recogniser
+`is_out_tree` on every case (true on every generated tree: the hypothesis of the
+theorems holds for the tested cases, `is_tree_spec`; false on every polytree),
+and `order_ok` must be true on the implementation's output whenever `is_tree`
+is (`order_ok_spec`), also for digraph-stream cases that happen to be trees.
 
 Second half (model coq/theories/C17/Walk.v, helper harness/c17_walk.py): the
 order USED FOR GROUPING.  Batches of 1-4 samples (parts undetected, matches
@@ -28,7 +36,7 @@ from .. import core
 from .. import c17_walk as cw
 
 PROP_FILES = [core.THEORIES / "C17" / "Props.v"]
-PREAMBLE = "From SV Require Import C17.Toposort.\nFrom Coq Require Import List.\nImport ListNotations.\n"
+PREAMBLE = "From SV Require Import C17.Toposort C17.Walk.\nFrom Coq Require Import List.\nImport ListNotations.\n"
 PREAMBLE_WALK = ("From SV Require Import C17.Toposort C17.Walk.\nFrom Coq Require Import List.\n"
                  "Import ListNotations.\n")
 
@@ -54,6 +62,72 @@ def rooted_trees(n):
                     break
             if ok:
                 yield root, [(par[v], v) for v in others]
+
+
+def is_out_tree(edges):
+    """Rooted out-tree written as an edge list (the domain of the property): non-empty, every node has at most
+    one incoming edge, exactly one node has none, and every node reaches it by climbing parents."""
+    if not edges:
+        return False
+    par = {}
+    for u, v in edges:
+        if v in par or u == v:
+            return False
+        par[v] = u
+    roots = {u for u, _ in edges if u not in par}
+    if len(roots) != 1:
+        return False
+    for v in par:
+        x, steps = v, 0
+        while x in par:
+            x, steps = par[x], steps + 1
+            if steps > len(edges):
+                return False
+    return True
+
+
+def is_undirected_tree(edges):
+    nodes = {x for e in edges for x in e}
+    if len(edges) != len(nodes) - 1 or len({frozenset(e) for e in edges}) != len(edges):
+        return False
+    comp = {x: x for x in nodes}
+
+    def find(x):
+        while comp[x] != x:
+            x = comp[x]
+        return x
+    for u, v in edges:
+        a, b = find(u), find(v)
+        if a == b:
+            return False
+        comp[a] = b
+    return True
+
+
+def polytrees(rng, quick):
+    """Out-of-domain stream: rooted trees with 1-2 edges reversed so that some node gets two incoming edges
+    (still a tree as an undirected graph, accepted by sleap-io and PAFScorer).  All such single reversals of all
+    rooted labelled trees on 3..4 nodes under all listings, plus sampled 5..7-node ones (sparse labels)."""
+    out = []
+    for n in (3, 4):
+        for root, es in rooted_trees(n):
+            for k, (u, v) in enumerate(es):
+                if u == root:
+                    continue                      # reversing an edge out of the root only re-roots the tree
+                flipped = es[:k] + [(v, u)] + es[k + 1:]
+                for perm in itertools.permutations(flipped):
+                    out.append(list(perm))
+    for _ in range(300 if quick else 3000):
+        n = rng.randint(5, 7)
+        order = rng.sample(range(12), n)
+        es = [(order[rng.randrange(i)], order[i]) for i in range(1, n)]
+        for k in rng.sample(range(len(es)), rng.choice([1, 1, 2])):
+            es[k] = (es[k][1], es[k][0])
+        rng.shuffle(es)
+        if not is_out_tree(es):
+            out.append(es)
+    assert all(is_undirected_tree(es) and not is_out_tree(es) for es in out)
+    return out
 
 
 def oracle(edges, out):
@@ -105,6 +179,11 @@ def check(run: core.Run) -> int:
         es = [(rng.randrange(5), rng.randrange(5)) for _ in range(m)]
         es = [(u, v) for u, v in es if u != v] or [(0, 1)]
         cases.append(("digraph", es))
+    # polytrees: outside the domain too (the witness of `toposort_polytree_incomplete` first)
+    n_before_poly = len(cases)
+    for es in [[(0, 1), (2, 1)], [(1, 0), (1, 2), (3, 2)]] + polytrees(rng, run.tier == "quick"):
+        cases.append(("polytree", es))
+    OUTSIDE = ("digraph", "polytree")
 
     # implementation
     impl = []
@@ -151,12 +230,36 @@ def check(run: core.Run) -> int:
                                             "edges": es, "got": got, "want": want, "oracle": bad,
                                             "edge_inds": [list(e) for e in sc.edge_inds]})
     # model
-    model = core.coq_eval_sharded(PREAMBLE, [term(es) for _, es in cases], "toposort",
-                                  "ropt (rlist rnat)", shard=1500)
+    def topo_term(es, ii):
+        return "(" + term(es) + ", " + ("None" if isinstance(ii, dict) else
+                                        "Some [" + "; ".join(str(int(i)) for i in ii) + "]") + ")"
+    model3 = core.coq_eval_sharded(PREAMBLE, [topo_term(es, ii) for (_, es), ii in zip(cases, impl)], "run_topo",
+                                   "rpair (ropt (rlist rnat)) (rpair rbool rbool)", shard=1500)
+    model = [m[0] for m in model3]
+    # the Coq checkers on the evaluated path: is_tree decides the hypothesis of the theorems (is_tree_spec),
+    # order_ok is the property on the implementation's output (order_ok_spec)
+    dom_bad, chk_bad, poly_incomplete = [], [], 0
+    for (kind, es), (_, (mtree, mok)), ii in zip(cases, model3, impl):
+        want_tree = is_out_tree(es)
+        if mtree != want_tree or (kind in ("tree", "tree7") and not mtree) or (kind == "polytree" and mtree):
+            dom_bad.append(f"{kind} {es}: is_tree (Coq) {mtree}, is_out_tree (Python) {want_tree}")
+        py_ok = (not isinstance(ii, dict)) and oracle(es, ii) is None
+        if mtree and mok != py_ok:
+            chk_bad.append(f"{kind} {es}: order_ok (Coq) {mok} vs Python oracle {py_ok} on impl output {ii}")
+        if mtree and kind in OUTSIDE and not py_ok:      # a digraph-stream case that IS a tree: inside the property
+            run.violation("failing-input", {"edges": es, "impl": ii, "oracle":
+                                            "implementation raised on a tree" if isinstance(ii, dict) else oracle(es, ii)})
+        if kind == "polytree" and not isinstance(ii, dict) and len(ii) < len(es):
+            poly_incomplete += 1
+    run.obligation("domain: is_tree (Coq, vm_compute) is true on every generated tree, false on every polytree and "
+                   "agrees with the Python recogniser on every case (the theorems' hypothesis holds for the tested trees)",
+                   not dom_bad, "; ".join(dom_bad[:3]))
+    run.obligation("checker: order_ok (Coq, vm_compute) on the implementation's output == the Python oracle on every "
+                   "in-domain case", not chk_bad, "; ".join(chk_bad[:3]))
     disagreements = 0
     oracle_fail = 0
     for (kind, es), mi, ii in zip(cases, model, impl):
-        run.case(es, nontrivial=(kind != "digraph" and len(es) >= 2))
+        run.case(es, nontrivial=(kind not in OUTSIDE and len(es) >= 2))
         if isinstance(ii, dict):
             same = mi is None
         else:
@@ -165,26 +268,29 @@ def check(run: core.Run) -> int:
             disagreements += 1
             if disagreements <= 3:
                 run.log(f"model/impl disagree on {es}: model {mi} impl {ii}")
-            bad = None if isinstance(ii, dict) else oracle(es, ii) if kind != "digraph" else None
-            if kind != "digraph" and (isinstance(ii, dict) or bad):
+            bad = None if isinstance(ii, dict) else oracle(es, ii) if kind not in OUTSIDE else None
+            if kind not in OUTSIDE and (isinstance(ii, dict) or bad):
                 run.violation("failing-input", {"edges": es, "model": mi, "impl": ii,
                                                 "oracle": bad or "implementation raised on a tree"})
             else:
                 run.proof_broken.append(f"correspondence toposort vs toposort_edges on {es}: model {mi} impl {ii}")
-        elif kind != "digraph":
+        elif kind not in OUTSIDE:
             bad = "implementation raised on a tree" if isinstance(ii, dict) else oracle(es, ii)
             if bad:
                 oracle_fail += 1
                 run.violation("failing-input", {"edges": es, "impl": ii, "oracle": bad})
     run.obligation("correspondence: toposort (Coq, vm_compute) == toposort_edges (/repo) on every case",
                    disagreements == 0, f"{disagreements} disagreements")
-    for kind, es in (cases[0], cases[n_exh // 2], cases[n_exh - 1], cases[n_exh + 1], cases[-1]):
+    for kind, es in (cases[0], cases[n_exh // 2], cases[n_exh + 1], cases[n_before_poly - 1],
+                     cases[n_before_poly], cases[-1]):
         run.sample({"kind": kind, "edges": es})
     walk_stats = walk_stream(run, rng)
     run.coverage.update({
         "exhaustive": True,
         "exhaustive_scope": f"all rooted labelled trees on 2..{maxn} nodes x all edge listings = {n_exh} cases",
-        "sampled_7node_trees": n7, "non_tree_digraphs": len(cases) - n_exh - n7,
+        "sampled_7node_trees": n7, "non_tree_digraphs": n_before_poly - n_exh - n7,
+        "polytrees_out_of_domain": len(cases) - n_before_poly, "polytrees_with_incomplete_order": poly_incomplete,
+        "digraph_stream_cases_that_are_trees": sum(1 for (k, es) in cases[n_exh + n7:n_before_poly] if is_out_tree(es)),
         "pafscorer_checked": n_scorer, "disagreements": disagreements, "oracle_failures": oracle_fail,
         "order_used_for_grouping": walk_stats,
         "rule": "case = edge list; non-trivial = a tree with >= 2 edges; distinct by the edge list itself",
